@@ -458,6 +458,61 @@ def first_diff_sentence(spec, model_rules, real):
     return None
 
 
+# ---------------------------------------------------------------------------
+# constraints over a CONJUNCTION of two clauses (`… and also …`): outside the Lean fragment, judged against a brute-force reading
+# ---------------------------------------------------------------------------
+CONJ_DECL = ('A node is identified by an id.\nA color is identified by an id.\nA node goes from 1 to 2.\nA color is one of red, green.\n'
+             'Every node can be painted in a color.\n')
+
+
+def _conj_job(args):
+    pol, c1, n1, c2, n2 = args
+    cl = lambda c, n: f'node X is {"not " if n else ""}painted in color {c}'
+    sent = f'It is {pol} that {cl(c1, n1)} and also {cl(c2, n2)}, whenever there is a node X.'
+    text = CONJ_DECL + sent + '\n'
+    r = rt.compile_cnl(text)
+    if r[0] != 'ok':
+        return {'cnl': text, 'rejected': str(r[1])[:200]}
+    ms = rt.clingo_models(r[1], shown={'painted_in'})
+    if ms[0] != 'ok':
+        return {'cnl': text, 'program': r[1], 'solver_error': ms[1][:300]}
+    got = {frozenset(m) for m in ms[1]}
+    pairs = [(n, c) for n in (1, 2) for c in ('red', 'green')]
+    want = set()
+    for bits in range(1 << len(pairs)):
+        chosen = {p for i, p in enumerate(pairs) if bits >> i & 1}
+        ok = True
+        for x in (1, 2):
+            situation = (((x, c1) in chosen) != n1) and (((x, c2) in chosen) != n2)
+            # prohibited: the situation occurs for no node; required: it occurs for every node
+            if situation == (pol == 'prohibited'):
+                ok = False
+                break
+        if ok:
+            want.add(frozenset(f'painted_in({n},"{c}")' for n, c in chosen))
+    out = {'cnl': text, 'program': r[1]}
+    if got != want:
+        odd = sorted(got ^ want, key=lambda m: (len(m), sorted(m)))[0]
+        out['diff'] = {'answer_sets': len(got), 'reference_models': len(want), 'example': sorted(odd), 'in_answer_sets': odd in got}
+    return out
+
+
+def conjunction_family(run):
+    jobs = [(pol, c1, n1, c2, n2) for pol in ('prohibited', 'required') for (c1, c2) in (('red', 'green'),)
+            for n1 in (False, True) for n2 in (False, True)]
+    for j, r in zip(jobs, rt.pmap(_conj_job, jobs, chunksize=1)):
+        run.count(('conjunction', j))
+        key = f'conjunction/{j[0]}'
+        if 'rejected' in r:
+            run.violation('rejected/' + key, f'rejected by the compiler: {r["rejected"][:200]}', {'cnl': r['cnl']})
+        elif 'solver_error' in r:
+            run.violation('solver-error/' + key, f'clingo rejects the compiled program: {r["solver_error"][:200]}', {'cnl': r['cnl'], 'program': r['program']})
+        elif 'diff' in r:
+            run.violation(key, f'answer sets differ from the direct reading ({r["diff"]["answer_sets"]} vs {r["diff"]["reference_models"]}); '
+                          f'e.g. {r["diff"]["example"]} is {"" if r["diff"]["in_answer_sets"] else "not "}an answer set',
+                          {'cnl': r['cnl'], 'program': r['program'], **r['diff']})
+
+
 def main(tier):
     run = common.Run(PROP, tier)
     rng = random.Random(run.seed)
@@ -543,6 +598,7 @@ def main(tier):
                         'direct reading, which C01_main proves equal to `Stable`, predicts clingo\'s answer sets of the real output)',
                         'the surface text of a resolved sentence is produced by the generator; that the real parser / linker reads it as that '
                         'resolved sentence is what the rule-by-rule correspondence checks']
+    conjunction_family(run)
     return run.finish()
 
 
